@@ -24,54 +24,77 @@ LABEL = {
 KIND_CFG = {"none": "HK_none", "invalidateAll": "HK_ia", "order": "HK_eo", "getmax": "HK_gm", "cleanup": "HK_cu", "reader": "HK_rd"}
 
 
-def cfg_text(writers, nwrites, ntasks, kind, fix=True):
+def cfg_text(writers, nwrites, ntasks, kind, fix=True, drop=""):
     holders = "{}" if kind == "none" else "{201}"
     return ("SPECIFICATION Spec\nCONSTANTS\n Writers = {%s}\n NWrites = %d\n Tasks = {%s}\n Holders = %s\n HolderKind <- %s\n"
-            " FixHolders = %s\n defaultInitValue = defaultInitValue\nINVARIANTS NoStranded LockFreeAtEnd StatusOK\n"
+            " FixHolders = %s\n Drop = {%s}\n defaultInitValue = defaultInitValue\nINVARIANTS NoStranded LockFreeAtEnd StatusOK\n"
             "CONSTRAINT PoolOK\nCHECK_DEADLOCK FALSE\n" %
             (", ".join(str(i + 1) for i in range(writers)), nwrites, ", ".join(str(101 + i) for i in range(ntasks)),
-             holders, KIND_CFG[kind], "TRUE" if fix else "FALSE"))
+             holders, KIND_CFG[kind], "TRUE" if fix else "FALSE", ('"%s"' % drop) if drop else ""))
 
 
 STEP_RE = re.compile(r"^\\\* <(\w+)\((\d+)\) line")
 
 
+def steps_from_labels(labels, ntasks):
+    """(label, pid) sequence of a Drain.tla behaviour -> kit script: ordered (goroutine name, hook id) steps."""
+    steps = []
+    spawned = {}       # spec task id -> current incarnation name
+    nspawn = 0
+    started = set()
+    for label, pid in labels:
+        if pid <= 100:
+            name = "w%d" % pid
+        elif pid <= 200:
+            name = spawned.get(pid)
+        else:
+            name = "h%d" % (pid - 200)
+        if label == "sdb_exec":
+            free = min(t for t in range(101, 101 + ntasks) if t not in spawned)
+            nspawn += 1
+            spawned[free] = "x%d" % nspawn
+        if label == "T_end":
+            spawned.pop(pid, None)
+        hook = LABEL.get(label)
+        if hook is None or name is None:
+            continue
+        if hook == "start":
+            if name in started:
+                continue
+            started.add(name)
+        steps.append({"g": name, "at": hook})
+    return steps
+
+
 def scripts_from_sim(simdir, writers, ntasks):
-    """Turn TLC -simulate behaviours into kit scripts: ordered (goroutine name, hook id) steps."""
+    """Turn TLC -simulate behaviours into kit scripts."""
     out = []
     for fn in sorted(os.listdir(simdir)):
-        steps = []
-        spawned = {}       # spec task id -> current incarnation name
-        nspawn = 0
-        started = set()
+        labels = []
         with open(os.path.join(simdir, fn)) as f:
             for line in f:
                 m = STEP_RE.match(line)
-                if not m:
-                    continue
-                label, pid = m.group(1), int(m.group(2))
-                if pid <= 100:
-                    name = "w%d" % pid
-                elif pid <= 200:
-                    name = spawned.get(pid)
-                else:
-                    name = "h%d" % (pid - 200)
-                if label == "sdb_exec":
-                    free = min(t for t in range(101, 101 + ntasks) if t not in spawned)
-                    nspawn += 1
-                    spawned[free] = "x%d" % nspawn
-                if label == "T_end":
-                    spawned.pop(pid, None)
-                hook = LABEL.get(label)
-                if hook is None or name is None:
-                    continue
-                if hook == "start":
-                    if name in started:
-                        continue
-                    started.add(name)
-                steps.append({"g": name, "at": hook})
-        out.append(steps)
+                if m:
+                    labels.append((m.group(1), int(m.group(2))))
+        out.append(steps_from_labels(labels, ntasks))
     return out
+
+
+CEX_RE = re.compile(r"^State \d+: <(\w+)\((\d+)\) line", re.M)
+# adversarial models: Drop = {site}; (site, holder kind); each must violate NoStranded
+ADVERSARIAL = [("db_lock", "none"), ("db_token", "none"), ("pc", "none"), ("saw_cas", "none"), ("mt_cas", "none"),
+               ("sm_maint", "getmax"), ("sm_rs", "getmax"), ("cleanup", "cleanup"), ("db_lock", "reader"), ("db_token", "cleanup"),
+               ("pc", "getmax")]
+
+
+def adversarial_script(work, site, kind, writers, nwrites, ntasks, workers=2):
+    """TLC's shortest counterexample of the model without one re-scheduling site = the schedule that needs that site."""
+    tag = "adv_%s_%s_%d_%d" % (site, kind, writers, nwrites)
+    r = run_tlc_mc(work, tag, cfg_text(writers, nwrites, ntasks, kind, drop=site), workers, 600)
+    r["site"], r["kind"], r["w"], r["n"] = site, kind, writers, nwrites
+    labels = [(m.group(1), int(m.group(2))) for m in CEX_RE.finditer(r["out"])]
+    violated = "Invariant NoStranded is violated" in r["out"]
+    return r, violated, steps_from_labels(labels, ntasks)
 
 
 def run_tlc_mc(work, tag, text, workers, timeout):
@@ -127,6 +150,20 @@ def run(prop, tier, replay=None):
                 for j, sc in enumerate(scripts_from_sim(simdir, w, t)):
                     scen.append({"writers": w, "writes": n, "holders": [] if k == "none" else [k], "max": 2, "policy": "script",
                                  "seed": seed * 1000 + j, "script": sc, "samekey": j % 2 == 1})
+            # adversarial schedules: counterexamples of the models that lack one re-scheduling / re-check site
+            adv_futs = [ex.submit(adversarial_script, work, site, kind, w, n, 3) for site, kind in ADVERSARIAL
+                        for (w, n) in ([(2, 1)] if (site, kind) in ADVERSARIAL[8:] else [(2, 1), (2, 2)] if quick else [(2, 1), (2, 2), (3, 1)])]
+            cov["adversarial"] = []
+            for fu in adv_futs:
+                r, violated, sc = fu.result()
+                cov["adversarial"].append({"dropped_site": r["site"], "holder": r["kind"], "violates_NoStranded": violated, "steps": len(sc),
+                                           "distinct": r["distinct"]})
+                if not violated or not sc:
+                    continue       # this site is not needed in this instance (reported in the evidence)
+                hk = [] if r["kind"] == "none" else [r["kind"]]
+                for rep in range(3 if quick else 10):
+                    scen.append({"writers": r["w"], "writes": r["n"], "holders": hk, "max": 2, "policy": "script",
+                                 "seed": seed * 1000 + 500 + rep, "script": sc, "samekey": rep % 2 == 1, "adv": r["site"]})
             # seeded policies, all holder kinds incl. those the model groups with getmax (setmax, wsize)
             nrand = 40 if quick else 500
             kinds = [[], ["invalidateAll"], ["order"], ["getmax"], ["cleanup"], ["reader"], ["setmax"], ["wsize"],
